@@ -959,8 +959,9 @@ Proof.
     destruct (validate c (mt st3)) as [|k a|s] eqn:Ev; cbn; [exact HK3| |exact I].
     apply BHere. eapply LBValidate; [exact Happ|apply K_faithful; exact HK3|exact Ev|reflexivity].
   - destruct (is_set s_ignore_errors c); [|exact Hparsed].
-    destruct (add_env c st) as [s1|e1 s1|x1]; try exact I;
-      match goal with |- context [add_defaults c ?x] => destruct (add_defaults c x) end; try exact I; exact Hparsed.
+    destruct (resolve_pending c st) as [s0|e0 s0|x0]; try exact I;
+      (match goal with |- context [add_env c ?x] => destruct (add_env c x) as [s1|e1 s1|x1] end; try exact I;
+       match goal with |- context [add_defaults c ?x] => destruct (add_defaults c x) end; try exact I; exact Hparsed).
 Qed.
 
 (** * the whole parse *)
